@@ -108,9 +108,9 @@ theorem content_contains (e : DExt κ α) (sdArg : Option Nat) (d : Cls) :
 /-- what the model's outcome of `_simplify` means for the dictionaries: nothing, the constant deleted, or the values written
     under the new class and the key deleted from the old one -/
 def fxOf (c : Cls) : SimpOut α → Bool × KeyFx α
-  | .unchanged => (false, {})
-  | .deleted => (true, { deleted := [c] })
-  | .moved d v => (true, { written := [(d, v)], deleted := [c] })
+  | .unchanged => (false, [])
+  | .deleted => (true, [KeyOp.del c])
+  | .moved d v => (true, [KeyOp.write d v, KeyOp.del c])
 
 theorem pyStepAux_stride (p : Nat) : ∀ (l : List α) (k : Nat), pyStepAux p k l = strideAux p k l
   | [], k => by simp [pyStepAux, strideAux]
@@ -274,12 +274,12 @@ theorem simplify_eq [DecidableEq α] (null : α) (e : DExt κ α) (h3 : 3 ≤ e.
 /-! the translated `_simplify` computes (tests, not theorems): constant values, values repeating per volume, nothing to do,
     a constant `None` -/
 example : Py.simplify (0 : Nat) [2, 2, 2, 2] (some 2) ["global", "time"] [5, 5, 5, 5] gslices =
-    .ok (true, { written := [(gconst, [5])], deleted := [gslices] }) := by rfl
+    .ok (true, [KeyOp.write gconst [5], KeyOp.del gslices]) := by rfl
 example : Py.simplify (0 : Nat) [2, 2, 2, 2] (some 2) ["global", "time"] [5, 6, 5, 6] gslices =
-    .ok (true, { written := [(tslices, [5, 6])], deleted := [gslices] }) := by rfl
+    .ok (true, [KeyOp.write tslices [5, 6], KeyOp.del gslices]) := by rfl
 example : Py.simplify (0 : Nat) [2, 2, 2, 2] (some 2) ["global", "time"] [5, 5, 6, 6] gslices =
-    .ok (true, { written := [(tsamples, [5, 6])], deleted := [gslices] }) := by rfl
-example : Py.simplify (0 : Nat) [2, 2, 2, 2] (some 2) ["global", "time"] [5, 6, 7, 8] gslices = .ok (false, { }) := by rfl
-example : Py.simplify (0 : Nat) [2, 2, 2, 2] (some 2) ["global", "time"] [0] gconst = .ok (true, { deleted := [gconst] }) := by rfl
+    .ok (true, [KeyOp.write tsamples [5, 6], KeyOp.del gslices]) := by rfl
+example : Py.simplify (0 : Nat) [2, 2, 2, 2] (some 2) ["global", "time"] [5, 6, 7, 8] gslices = .ok (false, []) := by rfl
+example : Py.simplify (0 : Nat) [2, 2, 2, 2] (some 2) ["global", "time"] [0] gconst = .ok (true, [KeyOp.del gconst]) := by rfl
 
 end Src
